@@ -112,7 +112,7 @@ pub fn worker(ctx: &mut WorkerCtx) {
     }
     // loops around scans: knowledge about the enclosing loop must be dropped after a pointer-moving sub-loop
     let n0 = base;
-    base += spaces::space_n(ctx.tier == Tier::Thorough, &mut |i, c| {
+    base += spaces::space_n(ctx.tier == Tier::Thorough, 5, &mut |i, c| {
         if ctx.owns(n0 + i) {
             work.push((n0 + i, c.to_vec()));
         }
